@@ -41,9 +41,15 @@ CHECKS = {
  'C14': dict(cat='model_checking', tech='generated element trees (C08 generator) with one post-construction edit, deep-copied and compared; one further edit for independence',
              text='Per element class: document variants x one post-construction edit (attribute set later / overwritten / removed, value changed, xsd_check off, child added / removed) -> deepcopy -> same serialisation, original unchanged, xsd_check kept, then independence under one more edit of either tree.',
              note='finite enumeration of edits; shapes and values from the reference model via z3; bounded to single edits', ref='3 C14'),
+ 'C15': dict(cat='model_checking', tech='differential symbolic exploration: every explored history is executed with the xml_* shortcuts and again with the explicit API calls they abbreviate',
+             text='Breadth-first exploration of reachable states (plus a pass starting from valid words with repeated names); each history containing a shortcut is re-executed through find_child / replace_child / add_child / remove / value_; per-step outcomes and the final serialisation (children carry serial marks) must agree; shortcut reads must equal find_child / the stored attribute.',
+             note=F1NOTE, ref='3 C15'),
  'C17': dict(cat='model_checking', tech='environment harness: open() as seen from the library replaced by an in-memory file system; default text encoding, code point, fault position, prior file state and intelligent_choice are z3-enumerated decisions; atomicity asserted by a z3 query over a symbolic prior content',
              text='write(), parse_musicxml() and the import-time block of generate_classes/utils.py are executed under every combination of locale encoding (4), code point class (5), fault position (each node of a small score made invalid in turn) and prior destination state (7); a raising write must leave the file as it was for every prior content, a returning one must leave exactly declaration + to_string() in UTF-8.',
              note='open() stub contract (w truncates at open; no encoding= means locale encoding); codecs executed; ASCII/UTF-8 replayed in real subprocesses, Latin-1/cp1252 only under the stub', ref='3 C17'),
+ 'C18': dict(cat='model_checking', tech='symbolic exploration of an element created with xsd_check=False over its own and foreign children; comparison with the checked twin on valid words; mixed checked/unchecked trees',
+             text='Breadth-first exploration of reachable states of unchecked elements (10 operation kinds incl. re-used stale children): no structural exception, insertion order in both views and in the output, byte-identical output to the checked twin for valid words; a checked node under an unchecked root still validates, an unchecked node in a checked tree is exempt.',
+             note=F1NOTE, ref='3 C18'),
  'C19': dict(cat='model_checking', tech='exception / output / time monitor over z3-driven symbolic histories on the real code with the widest operand ranges',
              text='Every exception escaping a public call in the explored histories is classified as documented or internal, stdout/stderr are captured per call and each path runs under a timer.',
              note=F1NOTE + '; TypeError/ValueError treated as documented everywhere', ref='3 C19'),
